@@ -4,7 +4,9 @@ Decided here: clause 1 only - with the random normals supplied by the caller thr
 seam, Brownian and geometric Brownian paths equal the exact solution of their SDE step by step, and
 the Merton / Kou jump models reduce to it at zero jump intensity; plus the noise-free skeleton
 (F11 noise_stall: the engine returns zeros; sigma = 0 for the generators without an engine seam
-where the scheme is exact there).  NOT decided: every distributional clause (means, variances,
+where the scheme is exact there); the drift compensator of the jump models, read off the jump-free
+steps of a stalled-engine run with rare jumps (closed form, no statistics); and that a simulation
+aborted by its sigma_fn leaves the previous complete sample.  NOT decided: every distributional clause (means, variances,
 correlations, martingale property, QE branch moments, rough-Bergomi forward variance) - those need
 large-sample statistics with error bars, which is statistical testing, not this family.
 """
@@ -29,7 +31,7 @@ ASSUMPTIONS = ["any injective map from time steps to recorded engine columns (th
                "implied normals are compared within the rounding bound of the cumulative sum: 16*eps*(T*max|z| + max|X|/(sigma*sqrt(dt)))",
                "the distributional clauses of the property are not decided by this check (partial claim)"]
 PROBES = ["implied_normals", "noise_stall", "sigma_zero_skeleton", "merton_zero_intensity", "kou_zero_intensity", "instrument_engine",
-          "init_nondefault", "drift_nonzero", "float64", "n_steps_1", "n_steps_2", "horizon_not_multiple_of_dt", "live_instrument"]
+          "init_nondefault", "drift_nonzero", "float64", "n_steps_1", "n_steps_2", "horizon_not_multiple_of_dt", "live_instrument", "simulation_aborted_by_sigma_fn", "compensated_drift_between_jumps"]
 FNS = ["generate_brownian", "generate_geometric_brownian", "generate_merton_jump", "generate_kou_jump", "MertonJumpStock", "KouJumpStock"]
 
 
@@ -51,6 +53,11 @@ def generate(rng):
                 op["jump_mean_up"] = rng.choice([0.02, 0.1])
                 op["jump_mean_down"] = rng.choice([0.05, 0.1])
                 op["jump_up_prob"] = rng.choice([0.0, 0.3, 1.0])
+            if fn in ("generate_merton_jump", "generate_kou_jump", "MertonJumpStock", "KouJumpStock") and rng.chance(0.3):
+                # rare jumps under a stalled engine: every jump-free step moves by exactly the compensated drift
+                # (mu - sigma^2/2 - lambda*m) dt, m = E[e^J - 1] in closed form - no statistics needed
+                op.update({"mode": "zeros", "dt": rng.choice([1 / 250, 1 / 365, 0.002]), "lam": rng.choice([0.5, 1.0, 2.0]),
+                           "n_paths": rng.choice([3, 7]), "n_steps": rng.choice([3, 5, 9, 21])})
             if fn in ("MertonJumpStock", "KouJumpStock"):
                 op["n_steps"] = max(op["n_steps"], 1)
                 if rng.chance(0.5):
@@ -125,6 +132,7 @@ def _execute(program, stats, hist):
         torch.manual_seed(op["torch_seed"])
         if name == "engine":
             sigma, mu = op["sigma"], op["mu"]
+            lam = float(op.get("lam", 0.0))
             eng = SimEngine(op["mode"], op["seed"])
             init = op["init"]
             kw = {}
@@ -140,11 +148,11 @@ def _execute(program, stats, hist):
                     out = getattr(st, fn)(n, T, sigma=sigma, mu=mu, dt=dtv, dtype=dtype, engine=eng, **kw)
                     comp = 0.0
                 elif fn == "generate_merton_jump":
-                    out = st.generate_merton_jump(n, T, sigma=sigma, mu=mu, jump_per_year=0.0, jump_mean=op["jump_mean"],
+                    out = st.generate_merton_jump(n, T, sigma=sigma, mu=mu, jump_per_year=lam, jump_mean=op["jump_mean"],
                                                   jump_std=op["jump_std"], dt=dtv, dtype=dtype, engine=eng, **kw)
                     stats.probe("merton_zero_intensity")
                 elif fn == "generate_kou_jump":
-                    out = st.generate_kou_jump(n, T, sigma=sigma, mu=mu, jump_per_year=0.0, jump_mean_up=op["jump_mean_up"],
+                    out = st.generate_kou_jump(n, T, sigma=sigma, mu=mu, jump_per_year=lam, jump_mean_up=op["jump_mean_up"],
                                                jump_mean_down=op["jump_mean_down"], jump_up_prob=op["jump_up_prob"], dt=dtv,
                                                dtype=dtype, engine=eng, **kw)
                     stats.probe("kou_zero_intensity")
@@ -153,10 +161,10 @@ def _execute(program, stats, hist):
                     frac = [0.0, 0.0, 0.4, 0.75][op.get("seed", op.get("torch_seed", 0)) % 4] if T >= 2 else 0.0
                     if live is None:
                         if fn == "MertonJumpStock":
-                            inst = pfi.MertonJumpStock(mu=mu, sigma=sigma, jump_per_year=0.0, jump_mean=op["jump_mean"], jump_std=op["jump_std"],
+                            inst = pfi.MertonJumpStock(mu=mu, sigma=sigma, jump_per_year=lam, jump_mean=op["jump_mean"], jump_std=op["jump_std"],
                                                        dt=dtv, dtype=dtype, engine=eng)
                         else:
-                            inst = pfi.KouJumpStock(sigma=sigma, mu=mu, jump_per_year=0.0, jump_mean_up=op["jump_mean_up"],
+                            inst = pfi.KouJumpStock(sigma=sigma, mu=mu, jump_per_year=lam, jump_mean_up=op["jump_mean_up"],
                                                     jump_mean_down=op["jump_mean_down"], jump_up_prob=op["jump_up_prob"], dt=dtv,
                                                     dtype=dtype, engine=eng)
                     else:
@@ -175,7 +183,7 @@ def _execute(program, stats, hist):
                         if live["read_volatility"]:
                             inst.volatility, inst.variance
                         # ... re-parameterised by plain attribute assignment and cast
-                        inst.sigma, inst.mu, inst.jump_per_year, inst.dt, inst.engine = sigma, mu, 0.0, dtv, eng
+                        inst.sigma, inst.mu, inst.jump_per_year, inst.dt, inst.engine = sigma, mu, lam, dtv, eng
                         if fn == "MertonJumpStock":
                             inst.jump_mean, inst.jump_std = op["jump_mean"], op["jump_std"]
                         else:
@@ -209,7 +217,26 @@ def _execute(program, stats, hist):
             x0 = (1.0 if geometric else 0.0) if init is None else float(torch.tensor(init, dtype=torch.float64).to(wd).double())
             X = out.double()
             t = torch.arange(T, dtype=torch.float64) * dtv
-            if op["mode"] == "zeros":
+            if op["mode"] == "zeros" and lam > 0:
+                stats.fault("F11_noise_stall")
+                if fn in ("generate_merton_jump", "MertonJumpStock"):
+                    m_comp = math.exp(op["jump_mean"] + op["jump_std"] ** 2 / 2) - 1
+                else:
+                    eu, ed, pu = 1 / op["jump_mean_up"], 1 / op["jump_mean_down"], op["jump_up_prob"]
+                    m_comp = (1 - pu) * ed / (ed + 1) + pu * eu / (eu - 1) - 1
+                c = (mu - sigma ** 2 / 2 - lam * m_comp) * dtv
+                stats.checks += 1
+                if T >= 2 and bool((X > 0).all()):
+                    inc = X.log().diff(dim=1)
+                    tol = 16 * eps * (X.log().abs().max() + 1.0) + 4 * eps * abs(c) * T
+                    hit = int(((inc - c).abs() <= tol).sum())
+                    stats.probe("compensated_drift_between_jumps")
+                    if hit == 0:
+                        raise Violation(ID, "compensated_drift", site, {
+                            "increments": inc[0], "expected_jump_free_increment": c, "compensator_m": m_comp, "op": op,
+                            "note": "with the engine stalled no step moves by (mu - sigma^2/2 - lambda*m)*dt"}, seq)
+                    stats.hazard((fn, "zeros+jumps", sigma, mu, dtv, T, str(wd), lam))
+            elif op["mode"] == "zeros":
                 # F11 noise stall: the deterministic skeleton of the SDE
                 stats.fault("F11_noise_stall")
                 stats.probe("noise_stall")
@@ -285,12 +312,39 @@ def _execute(program, stats, hist):
                                                                dt=dtv, dtype=dtype).spot
                 else:
                     inst = pfi.LocalVolatilityStock(make_sigma_fn("zero"), dt=dtv, dtype=dtype)
+                    if op.get("torch_seed", 0) % 3 == 0 and T >= 2:
+                        # F8: an earlier simulation of the same object was aborted by its sigma_fn; what can be read from the
+                        # instrument afterwards is still the previous complete sample of the model, not a mixture
+                        inst.sigma_fn = make_sigma_fn("const:0.3")
+                        inst.simulate(n_paths=n, time_horizon=(T - 1) * dtv)
+                        keep = {k_: b.clone() for k_, b in inst.named_buffers()}
+                        cnt = [0]
+
+                        def flaky(time, spot, _at=op["torch_seed"] % 4):
+                            cnt[0] += 1
+                            if cnt[0] > _at:
+                                raise RuntimeError("injected")
+                            return torch.full_like(spot, 0.3)
+                        inst.sigma_fn = flaky
+                        try:
+                            inst.simulate(n_paths=n, time_horizon=(T - 1) * dtv)
+                        except RuntimeError:
+                            now = {k_: b for k_, b in inst.named_buffers()}
+                            stats.fault("F8_callback_exception")
+                            stats.probe("simulation_aborted_by_sigma_fn")
+                            stats.checks += 1
+                            if now and not (sorted(now) == sorted(keep) and all(torch.equal(now[k_], keep[k_]) for k_ in now)):
+                                raise Violation(ID, "sample_is_a_mixture_after_failure", "LocalVolatilityStock.simulate[aborted]",
+                                                {"note": "buffers after an aborted simulate are neither the previous sample nor absent"}, seq)
+                        inst.sigma_fn = make_sigma_fn("zero")
                     frac = [0.0, 0.0, 0.4, 0.75][op.get("seed", op.get("torch_seed", 0)) % 4] if T >= 2 else 0.0
                     if frac:
                         stats.probe("horizon_not_multiple_of_dt")
                     inst.simulate(n_paths=n, time_horizon=(T - 1 - frac) * dtv, init_state=(init,) if init is not None else None)
                     out = inst.spot
                     T = out.shape[1]
+            except Violation:
+                raise
             except Exception as e:
                 raise Violation(ID, "op_raised", "%s:%s" % (site, type(e).__name__), {"error": repr(e)[:300], "op": op}, seq)
             stats.probe("sigma_zero_skeleton")
